@@ -14,9 +14,13 @@ EXPLANATION = ("Rotating sink, time side. R1: the time check precedes the write 
                "rule found the pinned tree's defect: next point = record + period). R1d: a rotated file is named after the moment it "
                "was opened (_open_file_timestamp, which the rotation sets to the triggering statement's timestamp). R2: every "
                "RotationFrequency enumerator except Disabled has an arm in both rotation-point calculators and the fall-through "
-               "throws; the configuration setters reject invalid frequencies, a zero interval and malformed daily times by throwing.")
-NOT_DECIDED = ("Where the rotation points fall as calendar values (time zones, DST, mktime), interaction with the backup limit as "
-               "behaviour, non-monotonic timestamps.")
+               "throws; the configuration setters reject invalid frequencies, a zero interval and malformed daily times by throwing. "
+               "R3 (first point): the start instant is broken down and converted back with the calendar functions of the same zone "
+               "(gmtime/timegm or localtime/mktime); the minutely/hourly arm advances its unit by plain addition of one — the carry into "
+               "the next hour/day is left to the normalising conversion, a wrapped value (x+1) % n without a carry is a point in the "
+               "past — and zeroes every smaller unit; the daily arm takes hour and minute from the configuration.")
+NOT_DECIDED = ("Where the rotation points fall as calendar values under DST (a daily point moved by +24 h across a DST change), interaction "
+               "with the backup limit as behaviour, non-monotonic timestamps. R3 decides how the first point is assembled, not its value.")
 ASSUMPTIONS = ["statement timestamps handed to one sink are non-decreasing (C05)"]
 RS = "quill::RotatingSink::"
 CFG = "quill::RotatingFileSinkConfig"
@@ -35,6 +39,8 @@ def run(ctx):
     for f in facts.need(RS + "_rotate_files", "A", floor=2):
         r1_name(ctx, f)
     r2(ctx, facts)
+    for f in facts.need(RS + "_calculate_initial_rotation_tp", "A", floor=2):
+        r3_initial(ctx, facts, f)
 
 
 def freq_tests(f, g):
@@ -69,8 +75,12 @@ def r1_write(ctx, f):
     ok = bool(ft) and not g.exists_path([g.entry_node], trp, avoid_edges=ft) and \
         all(not g.exists_path([tnode(g, b)], live_w, avoid_nodes=trp, avoid_edges=[(b, other(l))]) for (b, l) in ft) and \
         not g.exists_path(live_w, trp)
-    ctx.ob("C15.R1a", site + ":time-check-before-write", ok,
-           "with a rotation frequency configured every statement passes the time check before it is written (and never otherwise)", fn=f)
+    # ... and no other decision (e.g. 'the size check already rotated') lets a statement reach the write unchecked: the only way past
+    # the time check is the 'frequency disabled' outcome. Otherwise the rotation point stays behind and the *next* statement rotates late.
+    by_disabled_only = not g.exists_path([g.entry_node], live_w, avoid_nodes=trp, avoid_edges=[(b, other(l)) for (b, l) in ft])
+    ctx.ob("C15.R1a", site + ":time-check-before-write", ok and by_disabled_only,
+           "with a rotation frequency configured every statement passes the time check before it is written (and never otherwise); "
+           "nothing but 'frequency disabled' bypasses it: %s" % by_disabled_only, fn=f)
     # size rotation skipped when time rotation fired
     holders = set()
     for n in f.walk():
@@ -264,3 +274,110 @@ def r2(ctx, facts):
              any(x["k"] == "DeclRefExpr" and x.get("name", "").endswith("::Daily") for x in walk(n["rhs"])) for n in d.walk()) and \
         bool(d.calls(r"::_parse_daily_rotation_time$"))
     ctx.ob("C15.R2f", "RotatingFileSinkConfig::set_rotation_time_daily", ok, "selects Daily and validates the time string", fn=d)
+
+
+def _tm_field(n):
+    n = strip(n, casts=True)
+    return n.get("mname") if isnode(n) and n["k"] == "MemberExpr" and str(n.get("mname", "")).startswith("tm_") else None
+
+
+def r3_initial(ctx, facts, f):
+    g = f.g
+    site = "RotatingSink<%s>::_calculate_initial_rotation_tp" % inst(f)
+    # R3a: break-down and conversion back use the same zone
+    zt = []
+    for bid, b in g.blocks.items():
+        c = g.term_cond(bid)
+        nc = norm_cmp(c) if c is not None else None
+        if nc and nc[0] in ("==", "!=") and any(is_call(x, r"::timezone$") for x in walk(c)) and \
+                any(x["k"] == "DeclRefExpr" and x.get("name", "").endswith("Timezone::GmtTime") for x in walk(c)):
+            zt.append((bid, "T" if nc[0] == "==" else "F"))
+    if not zt:
+        raise AnalysisBroken(site + ": time-zone test not found")
+    gm_edges = zt
+    lo_edges = [(b, other(l)) for (b, l) in zt]
+    def only_under(positions, edges_allowed, edges_forbidden):
+        # reachable when the forbidden outcomes are never taken, unreachable when the allowed ones are never taken
+        return bool(positions) and all(g.exists_path([g.entry_node], [p], avoid_edges=edges_forbidden) for p in positions) and \
+            not g.exists_path([g.entry_node], positions, avoid_edges=edges_allowed)
+    pos = lambda pat: cpos(f, pat)
+    ok = only_under(pos(r"gmtime_rs$"), gm_edges, lo_edges) and only_under(pos(r"::timegm$"), gm_edges, lo_edges) and \
+        only_under(pos(r"localtime_rs$"), lo_edges, gm_edges) and only_under(pos(r"(^|::)mktime$"), lo_edges, gm_edges)
+    ctx.ob("C15.R3a", site + ":same-zone-both-ways", ok,
+           "the start instant is broken down with gmtime and converted back with timegm exactly under Timezone::GmtTime, with "
+           "localtime/mktime otherwise (a mixed pair shifts every point by the zone offset)", fn=f)
+    # R3b: per frequency arm
+    units = ["tm_sec", "tm_min", "tm_hour"]
+    arm = {}
+    for (bid, e, op) in freq_tests(f, g):
+        if op != "==":
+            continue
+        arm[e] = [g.node_ast(p) for p in straight_after(g, bid, "T")]
+    for e, unit in (("Minutely", "tm_min"), ("Hourly", "tm_hour")):
+        if e not in arm:
+            raise AnalysisBroken(site + ": no arm for " + e)
+        adv, zeroed, why = None, set(), ""
+        for n in arm[e]:
+            if not isnode(n):
+                continue
+            if n["k"] == "CompoundAssignOperator" and _tm_field(n["lhs"]) == unit:
+                adv = "plain" if n["op"] == "+=" and const_val(n["rhs"]) == 1 else "other"
+            elif n["k"] == "UnaryOperator" and n.get("op") == "++" and _tm_field(n["sub"]) == unit:
+                adv = "plain"
+            elif n["k"] == "BinaryOperator" and n["op"] == "=" and _tm_field(n["lhs"]):
+                fld = _tm_field(n["lhs"])
+                r = strip(n["rhs"], casts=True)
+                if fld == unit:
+                    if isnode(r) and r["k"] == "BinaryOperator" and r["op"] == "+" and \
+                            ((_tm_field(r["lhs"]) == unit and const_val(r["rhs"]) == 1) or (_tm_field(r["rhs"]) == unit and const_val(r["lhs"]) == 1)):
+                        adv = "plain"
+                    elif any(x["k"] == "BinaryOperator" and x["op"] in ("%", "&") for x in walk(r)) or any(x["k"] == "ConditionalOperator" for x in walk(r)):
+                        adv = "wrapped"
+                    else:
+                        adv = "other"
+                elif const_val(n["rhs"]) == 0:
+                    zeroed.add(fld)
+        smaller = set(units[:units.index(unit)])
+        if adv == "wrapped":
+            carry = any(isnode(n) and _tm_field(n.get("lhs")) in units[units.index(unit) + 1:] + ["tm_mday"] for n in arm[e] if isnode(n) and n["k"] in ("BinaryOperator", "CompoundAssignOperator"))
+            if carry:
+                raise AnalysisBroken(site + ": %s arm wraps %s with an explicit carry — a shape no accepted idiom covers" % (e, unit))
+        if adv in (None, "other"):
+            raise AnalysisBroken(site + ": %s arm: advance of %s has a shape no accepted idiom covers" % (e, unit))
+        ctx.ob("C15.R3b", site + ":%s:advance-with-carry" % e, adv == "plain" and smaller <= zeroed,
+               "%s: %s is advanced by one by plain addition (found: %s) so that the normalising conversion carries :59 into the next "
+               "hour / 23h into the next day, and the smaller units %s are zeroed (zeroed: %s)" % (e, unit, adv, sorted(smaller), sorted(zeroed)), fn=f)
+    if "Daily" not in arm:
+        raise AnalysisBroken(site + ": no arm for Daily")
+    src = {}
+    for n in arm["Daily"]:
+        if isnode(n) and n["k"] == "BinaryOperator" and n["op"] == "=" and _tm_field(n["lhs"]):
+            fld = _tm_field(n["lhs"])
+            if const_val(n["rhs"]) == 0:
+                src[fld] = "0"
+            else:
+                m = [x.get("mname") for x in walk(n["rhs"]) if x["k"] == "MemberExpr" and x.get("mname") in ("first", "second")]
+                src[fld] = (m[0] if m and any(is_call(x, r"::daily_rotation_time$") for x in walk(n["rhs"])) else "?")
+    ctx.ob("C15.R3c", site + ":Daily:configured-time", src.get("tm_hour") == "first" and src.get("tm_min") == "second" and src.get("tm_sec") == "0",
+           "Daily: hour and minute of the first point are the configured daily_rotation_time() (hours first, minutes second), seconds 0 (%s)" % src, fn=f)
+    # R3d: a point that is not in the future is moved one day ahead, never returned as is
+    rets = [g.node_ast(r) for r in g.return_nodes()]
+    inits = f.var_inits()
+    cond = [x for x in f.walk() if x["k"] == "ConditionalOperator"]
+    ok = False
+    for c in cond:
+        cs = cmp_sides(c.get("cond"))
+        if not cs:
+            continue
+        # rotation_time > time_now ? rotation_time : rotation_time + 24h
+        if cs[0] in ("<", "<=") :
+            small, big = cs[1], cs[2]
+        else:
+            continue
+        t_ = strip(c.get("then"), casts=True); e_ = strip(c.get("else"), casts=True)
+        if var_ref(big) is not None and var_ref(t_) == var_ref(big) and any(x["k"] == "BinaryOperator" and x["op"] == "+" for x in walk(e_)) and \
+                any(var_ref(x) == var_ref(big) for x in walk(e_)) and cs[0] == "<":
+            ok = True
+    ctx.ob("C15.R3d", site + ":past-point-moved-ahead", ok,
+           "the computed point is used only when it lies strictly after the start instant, otherwise a day is added (a first point at "
+           "or before the start would rotate on the very first statement)", fn=f)
